@@ -53,37 +53,40 @@ func init() {
 		vxPath + ".Monitor":   extVxMonitor,
 
 		// ---- sync
-		"(*sync.Once).Do":                  extOnceDo,
-		"(*sync.Mutex).Lock":               extLock,
-		"(*sync.Mutex).Unlock":             extUnlock,
-		"(*sync.Mutex).TryLock":            func(fr *frame, args []value) value { return true },
-		"(*sync.RWMutex).Lock":             extLock,
-		"(*sync.RWMutex).Unlock":           extUnlock,
-		"(*sync.RWMutex).RLock":            extNop,
-		"(*sync.RWMutex).RUnlock":          extNop,
-		"(*sync.Pool).Get":                 extPoolGet,
-		"(*sync.Pool).Put":                 extPoolPut,
-		"sync/atomic.LoadInt32":            extAtomicLoad,
-		"sync/atomic.LoadUint32":           extAtomicLoad,
-		"sync/atomic.LoadInt64":            extAtomicLoad,
-		"sync/atomic.LoadUint64":           extAtomicLoad,
-		"sync/atomic.LoadPointer":          extAtomicLoad,
-		"sync/atomic.LoadUintptr":          extAtomicLoad,
-		"sync/atomic.StoreInt32":           extAtomicStore,
-		"sync/atomic.StoreUint32":          extAtomicStore,
-		"sync/atomic.StoreInt64":           extAtomicStore,
-		"sync/atomic.StoreUint64":          extAtomicStore,
-		"sync/atomic.StoreUintptr":         extAtomicStore,
-		"sync/atomic.AddInt32":             extAtomicAdd,
-		"sync/atomic.AddUint32":            extAtomicAdd,
-		"sync/atomic.AddInt64":             extAtomicAdd,
-		"sync/atomic.AddUint64":            extAtomicAdd,
-		"sync/atomic.CompareAndSwapInt32":  extAtomicCAS,
-		"sync/atomic.CompareAndSwapUint32": extAtomicCAS,
-		"sync/atomic.CompareAndSwapInt64":  extAtomicCAS,
-		"sync/atomic.CompareAndSwapUint64": extAtomicCAS,
-		"(*sync/atomic.Value).Store":       extAtomicValueStore,
-		"(*sync/atomic.Value).Load":        extAtomicValueLoad,
+		"(*sync.Once).Do":                   extOnceDo,
+		"(*sync.Mutex).Lock":                extLock,
+		"(*sync.Mutex).Unlock":              extUnlock,
+		"(*sync.Mutex).TryLock":             func(fr *frame, args []value) value { return true },
+		"(*sync.RWMutex).Lock":              extLock,
+		"(*sync.RWMutex).Unlock":            extUnlock,
+		"(*sync.RWMutex).RLock":             extNop,
+		"(*sync.RWMutex).RUnlock":           extNop,
+		"(*sync.Pool).Get":                  extPoolGet,
+		"(*sync.Pool).Put":                  extPoolPut,
+		"sync/atomic.LoadInt32":             extAtomicLoad,
+		"sync/atomic.LoadUint32":            extAtomicLoad,
+		"sync/atomic.LoadInt64":             extAtomicLoad,
+		"sync/atomic.LoadUint64":            extAtomicLoad,
+		"sync/atomic.LoadPointer":           extAtomicLoad,
+		"sync/atomic.LoadUintptr":           extAtomicLoad,
+		"sync/atomic.StoreInt32":            extAtomicStore,
+		"sync/atomic.StoreUint32":           extAtomicStore,
+		"sync/atomic.StoreInt64":            extAtomicStore,
+		"sync/atomic.StoreUint64":           extAtomicStore,
+		"sync/atomic.StoreUintptr":          extAtomicStore,
+		"sync/atomic.StorePointer":          extAtomicStore,
+		"sync/atomic.SwapPointer":           extAtomicSwap,
+		"sync/atomic.CompareAndSwapPointer": extAtomicCASPointer,
+		"sync/atomic.AddInt32":              extAtomicAdd,
+		"sync/atomic.AddUint32":             extAtomicAdd,
+		"sync/atomic.AddInt64":              extAtomicAdd,
+		"sync/atomic.AddUint64":             extAtomicAdd,
+		"sync/atomic.CompareAndSwapInt32":   extAtomicCAS,
+		"sync/atomic.CompareAndSwapUint32":  extAtomicCAS,
+		"sync/atomic.CompareAndSwapInt64":   extAtomicCAS,
+		"sync/atomic.CompareAndSwapUint64":  extAtomicCAS,
+		"(*sync/atomic.Value).Store":        extAtomicValueStore,
+		"(*sync/atomic.Value).Load":         extAtomicValueLoad,
 
 		// ---- strings / bytes / bytealg
 		"strings.Index":                        extStringsIndex,
@@ -1340,4 +1343,100 @@ func (i *interpreter) fmtCallMethod(fr *frame, m *ssa.Function, recv value, verb
 		}
 	}()
 	return call(i, fr, token.NoPos, m, []value{recv})
+}
+
+func extAtomicSwap(fr *frame, args []value) value {
+	p := args[0].(*value)
+	if p == nil {
+		panic(runtimeErrorString("invalid memory address or nil pointer dereference"))
+	}
+	old := *p
+	*p = args[1]
+	return old
+}
+
+func extAtomicCASPointer(fr *frame, args []value) value {
+	p := args[0].(*value)
+	if p == nil {
+		panic(runtimeErrorString("invalid memory address or nil pointer dereference"))
+	}
+	if equals(types.Typ[types.UnsafePointer], *p, args[1]) {
+		*p = args[2]
+		return true
+	}
+	return false
+}
+
+// ---- sync.Map: modelled as an insertion-ordered map with (possibly symbolic)
+// string or integer keys; the real one is a lock-free structure over
+// map[any]*entry that the interpreter's hash map cannot key by symbolic text.
+var syncMaps = map[*value]*omap{}
+
+func syncMapOf(fr *frame, recv value, write bool) *omap {
+	p := recv.(*value)
+	if p == nil {
+		panic(runtimeErrorString("invalid memory address or nil pointer dereference"))
+	}
+	if write && fr.i.ex != nil && fr.i.ex.Guard != nil {
+		fr.i.ex.Guard.onStore(fr, p)
+	}
+	if write && fr.i.ex != nil && fr.i.ex.StoreMon != nil {
+		// the map synchronises internally: counted like an atomic store
+		fr.i.ex.StoreMon.atomicStores++
+	}
+	m, ok := syncMaps[p]
+	if !ok {
+		m = &omap{keyType: types.Typ[types.String], idx: map[value]int{}}
+		syncMaps[p] = m
+	}
+	return m
+}
+
+func syncMapKey(k value) value {
+	it, ok := k.(iface)
+	if !ok || it.t == nil {
+		panic(engineError("sync.Map: nil or non-interface key"))
+	}
+	if b, isBasic := it.t.Underlying().(*types.Basic); !isBasic || b.Info()&(types.IsString|types.IsInteger) == 0 {
+		panic(engineError("sync.Map model supports string and integer keys only, got " + it.t.String()))
+	}
+	return it.v
+}
+
+func init() {
+	externals["(*sync.Map).Load"] = func(fr *frame, args []value) value {
+		m := syncMapOf(fr, args[0], false)
+		v, ok := m.lookup(fr.i, syncMapKey(args[1]))
+		if !ok {
+			return tuple{iface{}, false}
+		}
+		return tuple{v, true}
+	}
+	externals["(*sync.Map).Store"] = func(fr *frame, args []value) value {
+		syncMapOf(fr, args[0], true).insert(fr.i, syncMapKey(args[1]), args[2])
+		return nil
+	}
+	externals["(*sync.Map).LoadOrStore"] = func(fr *frame, args []value) value {
+		m := syncMapOf(fr, args[0], true)
+		k := syncMapKey(args[1])
+		if v, ok := m.lookup(fr.i, k); ok {
+			return tuple{v, true}
+		}
+		m.insert(fr.i, k, args[2])
+		return tuple{args[2], false}
+	}
+	externals["(*sync.Map).Delete"] = func(fr *frame, args []value) value {
+		syncMapOf(fr, args[0], true).delete(fr.i, syncMapKey(args[1]))
+		return nil
+	}
+	externals["(*sync.Map).Range"] = func(fr *frame, args []value) value {
+		m := syncMapOf(fr, args[0], false)
+		for _, e := range append([]oentry{}, m.entries...) {
+			r := call(fr.i, fr, token.NoPos, args[1], []value{iface{types.Typ[types.String], e.k}, e.v})
+			if b, ok := r.(bool); ok && !b {
+				break
+			}
+		}
+		return nil
+	}
 }
